@@ -111,6 +111,21 @@ def run(chk: Check) -> None:
             chk.violation("roundtrip.differs", f"schedule does not round-trip: day {first}", {"op": "roundtrip", "schedule": outer})
             continue
         chk.nontrivial.add(show_sched(outer))
+        # ... and again after the caller has edited what it was given (get, tweak, set): the decode of the same fragments
+        # does not depend on what became of an earlier result
+        if h % 4 == 0:
+            import copy
+
+            keep = copy.deepcopy(back)
+            back["zone_idx"] = "HW"
+            sp0 = back["schedule"][0]["switchpoints"][0]
+            sp0["time_of_day"] = "23:55"
+            back["schedule"].reverse()
+            again = S.fragz_to_full_sched(frags)
+            if again != keep:
+                chk.violation("roundtrip.history", f"decoding the same fragments again gives {json.dumps(again, default=str)[:200]}, "
+                              f"not {json.dumps(keep, default=str)[:200]}: the result an earlier caller edited", {"op": "roundtrip.twice", "schedule": outer})
+            back = keep
         # model: regroup of the real decompressed bytes; cutting of the real blob
         blob = "".join(frags)
         raw = zlib.decompress(bytes.fromhex(blob))
